@@ -101,6 +101,45 @@ int main(int argc, char **argv)
         Ev("writehmac").i("id", id++).i("alg", alg).b("key", key).i("hashMark", 48).i("writeMark", 10).b("before", f2).b("after", after).emit();
       }
     }
+  // ONE long-lived hmac object used for everything: a random walk over (hash mode, key) with few keys, so that every
+  // pattern "mode X key A, mode Y key B, mode X key B" occurs - state cached in the object or the process must not leak
+  {
+    std::vector<std::vector<u8_t>> keys = {rng.bytes(16), rng.bytes(16), std::vector<u8_t>(16, 0)};
+    keys[1][0] = keys[0][0];      // shared first byte
+    hmac shared;
+    for (int step = 0; step < 90; ++step)
+    {
+      int alg = (int)rng.next(3);
+      auto &key = keys[rng.next(3)];
+      std::vector<u8_t> file = rng.bytes(48);
+      auto m = wv_content(rng, 10 + step % 70, 1);
+      file.insert(file.end(), m.begin(), m.end());
+      FILE *f = wv_memfile(file);
+      fseek(f, 48, SEEK_SET);
+      u8_t out[64];
+      memset(out, 0xAA, sizeof out);
+      shared.gethmac(alg, key.data(), f, out);
+      int hl = shared.get_length();
+      Ev("gethmac").i("id", id++).i("alg", alg).b("key", key).i("pos", 48).b("file", file).i("hlen", hl).b("out", out, 64).emit();
+      // and the comparison through the same object: the right tag (computed by a FRESH object) must be accepted,
+      // the tag of another key must not
+      for (int which = 0; which < 2; ++which)
+      {
+        auto &k2 = which == 0 ? key : keys[(&key - &keys[0] + 1) % 3];
+        u8_t given[64];
+        memset(given, 0, sizeof given);
+        FILE *g0 = wv_memfile(file);
+        fseek(g0, 48, SEEK_SET);
+        hmac fresh;
+        fresh.gethmac(alg, k2.data(), g0, given);
+        fclose(g0);
+        fseek(f, 48, SEEK_SET);
+        bool r = shared.cmphmac(alg, key.data(), f, given);
+        Ev("cmphmac").i("id", id++).i("alg", alg).b("key", key).i("pos", 48).b("file", file).b("given", given, 64).i("res", r ? 1 : 0).emit();
+      }
+      fclose(f);
+    }
+  }
   // start positions beyond one byte / two bytes of offset: "[pos, EOF)" for every pos, not only header-sized ones
   for (int alg = 0; alg < 3; ++alg)
     for (long pos : {255L, 256L, 257L, 300L, 1000L, 4103L, 65539L})
